@@ -1191,10 +1191,15 @@ func (w *Walker) call(st *wstate, b *ssa.BasicBlock, idx int, in *ssa.Call) bool
 			}
 			// unknown callee may modify heap cells: forget non-local cells
 			dynCall := strings.HasPrefix(name, "dyn:") || strings.Contains(name, "$")
-			takesFunc := dynCall
-			for _, a := range in.Call.Args {
-				if _, ok := a.Type().Underlying().(*types.Signature); ok {
-					takesFunc = true
+			// locals that a closure passed to this call binds (and may write)
+			bound := map[string]bool{}
+			allArgs := append([]ssa.Value{}, in.Call.Args...)
+			allArgs = append(allArgs, in.Call.Value)
+			for _, a := range allArgs {
+				if mc, ok := a.(*ssa.MakeClosure); ok {
+					for _, b := range mc.Bindings {
+						bound[w.canon(st, fr, b)] = true
+					}
 				}
 			}
 			for k := range st.store {
@@ -1210,8 +1215,8 @@ func (w *Walker) call(st *wstate, b *ssa.BasicBlock, idx int, in *ssa.Call) bool
 				if i := strings.IndexAny(k[len("&alloc:"):], ".["); i >= 0 {
 					base = k[:len("&alloc:")+i]
 				}
-				if w.heap[base] && takesFunc && w.captured(base) {
-					delete(st.store, k) // a closure that writes this local may be run by the callee
+				if w.heap[base] && bound[base] && w.captured(base) {
+					delete(st.store, k) // a closure that writes this local is handed to the callee
 				}
 			}
 		}
